@@ -68,6 +68,8 @@ class Position:
     slash_ok = True
     full = False
 
+    long_ok = True      # payloads of several hundred characters are expressible here (not so in a file name)
+
     def extra_payloads(self) -> typing.List[str]:
         """Position-specific spellings of the payloads (an encoding some layer may undo)."""
         return []
@@ -88,6 +90,7 @@ class ErrorPageSelector(Position):
 
 
 class FileName(Position):
+    long_ok = False
     name = "file-name-in-listing"
     slash_ok = False
 
@@ -100,6 +103,7 @@ class FileName(Position):
 
 
 class DirName(Position):
+    long_ok = False
     name = "directory-name-in-title"
     slash_ok = False
 
@@ -201,6 +205,30 @@ class UrlRedirect(Position):
                [("http", ("/URL:http://example.org/?q=" + p).encode("utf-8", "surrogateescape"))]
 
 
+class RequestHeaders(Position):
+    """Text the client sends *beside* the selector: header values of an HTTP/HTTPS/WAP request for a directory page."""
+    name = "http-request-header-values"
+    slash_ok = True
+
+    def build(self, t, p):
+        t.file("hd/one.txt", "1\n")
+        t.file("hd/sub/two.txt", "2\n")
+        t.file("hm/gophermap", "Info line\n0One\t/hd/one.txt\n1Sub\t/hd/sub\n")
+
+    def raw_requests(self, p):
+        out = []
+        v = p.encode("utf-8", "surrogateescape").replace(b"\r", b" ").replace(b"\n", b" ")
+        header_sets = [b"Host: " + v, b"Host: " + v + b":70", b"Host: verif.example\r\nUser-Agent: " + v,
+                       b"Host: verif.example\r\nReferer: " + v, b"Host: verif.example\r\nX-Forwarded-Host: " + v,
+                       b"Host: verif.example\r\nAccept: text/html, " + v, b"Host: " + v + b"\r\nHost: verif.example",
+                       b"Host: verif.example\r\nX-Wap-Profile: " + v + b"\r\nAccept: text/vnd.wap.wml"]
+        for hs in header_sets:
+            for target, tls in ((b"/hd", False), (b"/", False), (b"/hm", True), (b"/wap/hd", False), (b"/nonexistent", False)):
+                out.append(("https" if tls else ("wap" if target.startswith(b"/wap") else "http"), target,
+                            b"GET " + target + b" HTTP/1.0\r\n" + hs + b"\r\n\r\n", tls))
+        return out
+
+
 class TextToWml(Position):
     name = "text-converted-to-wml"
 
@@ -249,10 +277,14 @@ def run_position(chk: Check, sc: Scratch, pos: Position, payloads: typing.List[s
         site = driver.Site(root, handlers=driver.HANDLERS_FULL if pos.full else None)
         out = []
         try:
-            for view, sel in pos.requests(p):
-                q = p.encode("utf-8", "surrogateescape") if isinstance(pos, SearchString) else None
-                req, r = fetch(site, view, sel, q)
-                out.append((view, sel, req, r))
+            if hasattr(pos, "raw_requests"):
+                for view, sel, req, tls in pos.raw_requests(p):
+                    out.append((view, sel, req, site.request(req, tls="mock" if tls else False)))
+            else:
+                for view, sel in pos.requests(p):
+                    q = p.encode("utf-8", "surrogateescape") if isinstance(pos, SearchString) else None
+                    req, r = fetch(site, view, sel, q)
+                    out.append((view, sel, req, r))
         finally:
             site.close()
         return out
@@ -386,7 +418,8 @@ def main() -> int:
     quick = chk.tier == "quick"
     with Scratch("c13") as sc:
         positions: typing.List[Position] = [ErrorPageSelector(), FileName(), DirName(), HtmlTitle(), MailSubject(sc.path),
-                                            Abstract(), GophermapDesc(), LinkFile(), UrlRedirect(), TextToWml(), SearchString()]
+                                            Abstract(), GophermapDesc(), LinkFile(), UrlRedirect(), TextToWml(), SearchString(),
+                                            RequestHeaders()]
         rng = chk.rng
         for i, pos in enumerate(positions):
             pl = list(PAYLOADS_NOSLASH) + (PAYLOADS_SLASH if pos.slash_ok else [])
@@ -396,7 +429,15 @@ def main() -> int:
             else:
                 # thorough: also seeded combinations
                 pl += [rng.choice(PAYLOADS_NOSLASH) + rng.choice(PAYLOADS_NOSLASH) for _ in range(40)] + extra
-            run_position(chk, sc, pos, pl, i)
+            # the same payloads inside long values (code that abbreviates, folds or wraps long text)
+            lengths = [105, 180] + ([300, 1100] if pos.long_ok else [])
+            longs = []
+            for k, base in enumerate(pl[:2] + ([pl[-1]] if not quick else [])):
+                for n in lengths if not quick else lengths[k % 2::2]:
+                    pad = max(0, n - len(base))
+                    lead = min(pad, [20, 60, 90][(k + n) % 3])
+                    longs.append("A" * lead + base + "B" * (pad - lead))
+            run_position(chk, sc, pos, pl + longs, i)
         gopherplus_blocks(chk, sc)
     return chk.finish(
         rule="case = (echo position, protocol family, payload): the page for hostile data must have the same element/"
